@@ -8,6 +8,7 @@ import PrioModel.TraceVdaf
 import PrioModel.IdpfExec
 import PrioModel.Poly
 import PrioModel.Flp
+import PrioModel.FieldCtxInst
 import PrioModel.Prio3
 import PrioModel.Ctor
 import PrioModel.Par
@@ -436,18 +437,6 @@ def handleIdpf1 (args : List String) : String :=
       | _, _, _, _, _, _ => "bad-op"
   | _ => "bad-op"
 
-/-- `F::root(l)` and `F::half()` of a named NTT field at the executable instance -/
-def rootOf (name : String) (q : Nat) (l : Nat) : Option (Fin (q + 1)) :=
-  match findParams name with
-  | some P =>
-    if l < min (P.roots.length) (P.numRoots + 1) then some (Fin.ofNat (q + 1) (P.residue (P.roots.getD l 0))) else none
-  | none => none
-
-def halfOf (name : String) (q : Nat) : Fin (q + 1) :=
-  match findParams name with
-  | some P => Fin.ofNat (q + 1) (P.residue P.half)
-  | none => 0
-
 def showR {q : Nat} (sz : Nat) (r : Ntt.R (Array (Fin (q + 1)))) : String :=
   match r with
   | .ok a => "ok " ++ toHex (encodeFieldVec sz a.toList)
@@ -545,9 +534,6 @@ def parseTypeSpec (s : String) : Option Flp.TypeSpec :=
   | ["svec", l, b, lw, c] => do pure (.sumVec (← l.toNat?) (← b.toNat?) (← lw.toNat?) (← c.toNat?))
   | ["l1", l, b, lw, c] => do pure (.l1BoundSum (← l.toNat?) (← b.toNat?) (← lw.toNat?) (← c.toNat?))
   | _ => none
-
-def fieldCtx (name : String) (q : Nat) : Flp.FieldCtx (Fin (q + 1)) :=
-  ⟨rootOf name q, halfOf name q, Fin.ofNat (q + 1)⟩
 
 def showFlp {q : Nat} (sz : Nat) (r : Flp.Res (List (Fin (q + 1)))) : String :=
   match r with
